@@ -1,8 +1,60 @@
-(* C07 - lemmas about the cast model (Model/C07.v). *)
+(* C07 - lemmas about the cast model (Model/C07.v) that Props/C07.v exports. *)
 From Coq Require Import List ZArith NArith Bool Lia ZifyBool.
 From Orso Require Import Base.Civil Gen.C08_Tables Model.C08 Gen.C07_Tables Model.C07.
+From Orso Require Import Proofs.C08_Str Proofs.C08_Utf8 Proofs.C08_Render Proofs.C08 Proofs.C07_Int Proofs.C07_Dec.
 Import ListNotations.
 Open Scope Z_scope.
+
+(* ---------- generic helpers ---------- *)
+Lemma rbind_ok {A B} (r : res A) (f : A -> res B) v : rbind r f = ROk v -> exists a, r = ROk a /\ f a = ROk v.
+Proof. destruct r as [a|e]; cbn [rbind]; [eauto|discriminate]. Qed.
+
+Lemma nlist_eqb_eq a : forall b, nlist_eqb a b = true <-> a = b.
+Proof.
+  induction a as [|x a IH]; intros [|y b]; cbn [nlist_eqb]; split; try discriminate; try reflexivity.
+  - intros H. apply andb_true_iff in H. destruct H as [Hx Hr]. apply N.eqb_eq in Hx. apply IH in Hr. now subst.
+  - intros [= -> ->]. rewrite N.eqb_refl. now apply IH.
+Qed.
+
+Lemma in_boolean_strings_iff yb w : in_boolean_strings yb w = true <-> In (yb, w) boolean_strings.
+Proof.
+  unfold in_boolean_strings. rewrite existsb_exists. split.
+  - intros ((b', w') & Hin & H). apply andb_true_iff in H. destruct H as [Hb Hw]. cbn [fst snd] in *.
+    apply eqb_prop in Hb. apply nlist_eqb_eq in Hw. now subst.
+  - intros Hin. exists (yb, w). split; [assumption|]. cbn [fst snd]. rewrite eqb_reflx. cbn [andb].
+    now apply nlist_eqb_eq.
+Qed.
+
+Lemma mapM_ok {A B} (f : A -> res B) l l' : mapM f l = ROk l' -> Forall2 (fun x y => f x = ROk y) l l'.
+Proof.
+  revert l'. induction l as [|x l IH]; intros l' H; cbn [mapM] in H.
+  - injection H as <-. constructor.
+  - apply rbind_ok in H. destruct H as (y & Hy & H). apply rbind_ok in H. destruct H as (ys & Hys & H).
+    injection H as <-. constructor; [assumption|]. now apply IH.
+Qed.
+
+Lemma mapM_all_ok {A B} (f : A -> res B) l l' : Forall2 (fun x y => f x = ROk y) l l' -> mapM f l = ROk l'.
+Proof. induction 1 as [|x y l l' Hxy _ IH]; cbn [mapM]; [reflexivity|]. rewrite Hxy. cbn [rbind]. rewrite IH. reflexivity. Qed.
+
+Lemma py_upper_ascii s : forallb (fun c => c <? 128)%N s = true -> py_upper s = map upper_ascii s.
+Proof.
+  induction s as [|c s IH]; intros H; [reflexivity|].
+  cbn [forallb] in H. apply andb_true_iff in H. destruct H as [Hc Hs].
+  unfold py_upper in *. cbn [flat_map map]. unfold upper1 at 1. rewrite Hc. cbn [app]. f_equal. now apply IH.
+Qed.
+
+
+Lemma firstn_longest_prefix {A} (t : list A) n :
+  prefix (firstn n t) t /\ (length (firstn n t) <= n)%nat /\ length (firstn n t) = Nat.min n (length t) /\
+  forall r, prefix r t -> (length r <= n)%nat -> prefix r (firstn n t).
+Proof.
+  split; [exists (skipn n t); now rewrite firstn_skipn|].
+  split; [apply firstn_le_length|]. split; [apply firstn_length|].
+  intros r [c ->] Hlen. exists (firstn (n - length r) c).
+  rewrite firstn_app. rewrite firstn_all2 by assumption. reflexivity.
+Qed.
+
+
 
 Section Oracles.
 Variable float_of_text : list N -> res N.
@@ -13,8 +65,544 @@ Variable json_dumps : pyval -> res (list N).
 Variable str_container : pyval -> list N.
 
 Notation parse' := (parse float_of_text float_of_bytes repr_float json_loads json_dumps str_container).
+Notation parse_elem' := (parse_elem float_of_text float_of_bytes repr_float json_loads json_dumps str_container).
+Notation parse_scalar' := (parse_scalar float_of_text float_of_bytes repr_float json_loads json_dumps str_container).
+Notation column' := (column_default float_of_text float_of_bytes repr_float json_loads json_dumps str_container).
+Notation py_str' := (py_str repr_float str_container).
 
+(* ---------- null ---------- *)
 Lemma parse_none t k : parse' t k PNone = ROk PNone.
 Proof. reflexivity. Qed.
 
+Lemma parse_elem_none et : parse_elem' et PNone = ROk PNone.
+Proof. reflexivity. Qed.
+
+(* element_type.parse(v) is the cast without keyword arguments *)
+Lemma parse_elem_eq et v : parse_elem' et v = parse' et nokw v.
+Proof.
+  unfold parse_elem, parse. destruct v; try reflexivity; destruct (parser_table et) as [[]|]; reflexivity.
+Qed.
+
+(* ---------- INTEGER ---------- *)
+Lemma integer_native k z : parse' T_INTEGER k (PInt z) = ROk (PInt z).
+Proof. reflexivity. Qed.
+
+Lemma integer_of_bool k b : parse' T_INTEGER k (PBool b) = ROk (PInt (if b then 1 else 0)).
+Proof. reflexivity. Qed.
+
+Lemma integer_str_defined z : ndig (Z.abs z) <= int_max_str_digits -> py_str' (PInt z) = ROk (render_Z z).
+Proof. intros H. cbn [py_str]. now apply str_of_int_ok. Qed.
+
+Lemma integer_roundtrip k z s ws1 ws2 :
+  py_str' (PInt z) = ROk s -> forallb blank ws1 = true -> forallb blank ws2 = true ->
+  parse' T_INTEGER k (PStr (ws1 ++ s ++ ws2)) = ROk (PInt z) /\
+  parse' T_INTEGER k (PBytes (utf8_encode (ws1 ++ s ++ ws2))) = ROk (PInt z).
+Proof.
+  intros Hs H1 H2. cbn [py_str] in Hs. apply str_of_int_inv in Hs. destruct Hs as [-> Hd].
+  destruct (int_of_rendering z ws1 ws2 Hd H1 H2) as [Ht Hb].
+  assert (forallb (fun c => c <? 128)%N (ws1 ++ render_Z z ++ ws2) = true) as Hascii.
+  { rewrite !forallb_app, (blank_ascii _ H1), (blank_ascii _ H2), render_Z_ascii. reflexivity. }
+  rewrite (utf8_encode_ascii _ Hascii).
+  unfold parse. cbv beta iota delta [parser_table parse_scalar parse_integer]. rewrite Ht, Hb. split; reflexivity.
+Qed.
+
+(* ---------- BOOLEAN ---------- *)
+Lemma boolean_of_str k s : parse' T_BOOLEAN k (PStr s) = ROk (PBool (in_boolean_strings false (py_upper s))).
+Proof. reflexivity. Qed.
+
+Lemma boolean_of_bytes k b : parse' T_BOOLEAN k (PBytes b) = ROk (PBool (in_boolean_strings true (bytes_upper b))).
+Proof. reflexivity. Qed.
+
+Lemma boolean_true_iff k s :
+  (parse' T_BOOLEAN k (PStr s) = ROk (PBool true) <-> In (false, py_upper s) boolean_strings) /\
+  (parse' T_BOOLEAN k (PBytes s) = ROk (PBool true) <-> In (true, bytes_upper s) boolean_strings).
+Proof.
+  rewrite boolean_of_str, boolean_of_bytes. rewrite <- !in_boolean_strings_iff. split; split.
+  - intros [= H]. exact H.
+  - intros ->. reflexivity.
+  - intros [= H]. exact H.
+  - intros ->. reflexivity.
+Qed.
+
+Lemma boolean_render k b :
+  parse' T_BOOLEAN k (PBool b) = ROk (PBool b) /\
+  (exists s, py_str' (PBool b) = ROk s /\ parse' T_BOOLEAN k (PStr s) = ROk (PBool b) /\
+             parse' T_BOOLEAN k (PBytes (utf8_encode s)) = ROk (PBool b)).
+Proof.
+  destruct b.
+  - split; [vm_compute; reflexivity|]. eexists. split; [reflexivity|]. split; vm_compute; reflexivity.
+  - split; [vm_compute; reflexivity|]. eexists. split; [reflexivity|]. split; vm_compute; reflexivity.
+Qed.
+
+(* ---------- VARCHAR / BLOB ---------- *)
+Lemma py_prefix_pos {A} n (l : list A) : 1 <= n -> py_prefix (Some n) l = firstn (Z.to_nat n) l.
+Proof. intros H. unfold py_prefix. replace (n =? 0) with false by lia. replace (n <? 0) with false by lia. reflexivity. Qed.
+
+Lemma varchar_prefix n t : 1 <= n ->
+  parse' T_VARCHAR (mkkw (Some n) None None None) (PStr t) = ROk (PStr (firstn (Z.to_nat n) t)) /\
+  (forallb scalar t = true ->
+   parse' T_VARCHAR (mkkw (Some n) None None None) (PBytes (utf8_encode t)) = ROk (PStr (firstn (Z.to_nat n) t))).
+Proof.
+  intros Hn. unfold parse. cbv beta iota delta [parser_table parse_scalar parse_varchar py_str rbind kw_length].
+  rewrite py_prefix_pos by assumption. split; [reflexivity|].
+  intros Hs. unfold utf8_decode_strict. rewrite utf8_decode_encode by assumption. cbn [rbind].
+  now rewrite py_prefix_pos.
+Qed.
+
+Lemma varchar_unbounded t :
+  parse' T_VARCHAR nokw (PStr t) = ROk (PStr t) /\
+  (forallb scalar t = true -> parse' T_VARCHAR nokw (PBytes (utf8_encode t)) = ROk (PStr t)).
+Proof.
+  unfold parse. cbv beta iota delta [parser_table parse_scalar parse_varchar py_str rbind kw_length nokw py_prefix].
+  split; [reflexivity|]. intros Hs. unfold utf8_decode_strict. now rewrite utf8_decode_encode.
+Qed.
+
+Lemma blob_prefix n b t : 1 <= n ->
+  parse' T_BLOB (mkkw (Some n) None None None) (PBytes b) = ROk (PBytes (firstn (Z.to_nat n) b)) /\
+  (forallb scalar t = true ->
+   parse' T_BLOB (mkkw (Some n) None None None) (PStr t) = ROk (PBytes (firstn (Z.to_nat n) (utf8_encode t)))).
+Proof.
+  intros Hn. unfold parse. cbv beta iota delta [parser_table parse_scalar parse_bytes is_container py_str rbind kw_length].
+  rewrite py_prefix_pos by assumption. split; [reflexivity|].
+  intros Hs. unfold utf8_encode_strict. rewrite Hs. cbn [rbind]. now rewrite py_prefix_pos.
+Qed.
+
+Lemma blob_unbounded b t :
+  parse' T_BLOB nokw (PBytes b) = ROk (PBytes b) /\
+  (forallb scalar t = true -> parse' T_BLOB nokw (PStr t) = ROk (PBytes (utf8_encode t))).
+Proof.
+  unfold parse. cbv beta iota delta [parser_table parse_scalar parse_bytes is_container py_str rbind kw_length nokw py_prefix].
+  split; [reflexivity|]. intros Hs. unfold utf8_encode_strict. now rewrite Hs.
+Qed.
+
+(* VARCHAR[n] / BLOB[n]: the result is the longest prefix of length <= n *)
+Lemma varchar_longest n t : 1 <= n ->
+  let r := firstn (Z.to_nat n) t in
+  parse' T_VARCHAR (mkkw (Some n) None None None) (PStr t) = ROk (PStr r) /\
+  (forallb scalar t = true -> parse' T_VARCHAR (mkkw (Some n) None None None) (PBytes (utf8_encode t)) = ROk (PStr r)) /\
+  prefix r t /\ zlen r <= n /\ zlen r = Z.min n (zlen t) /\
+  (forall r', prefix r' t -> zlen r' <= n -> prefix r' r).
+Proof.
+  intros Hn r. destruct (varchar_prefix n t Hn) as [H1 H2].
+  destruct (firstn_longest_prefix t (Z.to_nat n)) as (P1 & P2 & P3 & P4). fold r in P1, P2, P3, P4.
+  split; [exact H1|]. split; [exact H2|]. split; [exact P1|]. unfold zlen.
+  split; [lia|]. split; [lia|]. intros r' Hp Hl. apply P4; [assumption|]. unfold zlen in Hl. lia.
+Qed.
+
+Lemma blob_longest n b : 1 <= n ->
+  let r := firstn (Z.to_nat n) b in
+  parse' T_BLOB (mkkw (Some n) None None None) (PBytes b) = ROk (PBytes r) /\
+  (forall t, forallb scalar t = true -> utf8_encode t = b -> parse' T_BLOB (mkkw (Some n) None None None) (PStr t) = ROk (PBytes r)) /\
+  prefix r b /\ zlen r <= n /\ zlen r = Z.min n (zlen b) /\
+  (forall r', prefix r' b -> zlen r' <= n -> prefix r' r).
+Proof.
+  intros Hn r. destruct (firstn_longest_prefix b (Z.to_nat n)) as (P1 & P2 & P3 & P4). fold r in P1, P2, P3, P4.
+  split; [exact (proj1 (blob_prefix n b [] Hn))|].
+  split; [intros t Ht <-; exact (proj2 (blob_prefix n [] t Hn) Ht)|].
+  split; [exact P1|]. unfold zlen.
+  split; [lia|]. split; [lia|]. intros r' Hp Hl. apply P4; [assumption|]. unfold zlen in Hl. lia.
+Qed.
+
+(* ---------- ARRAY ---------- *)
+Lemma array_items_container x l :
+  (x = PList l \/ x = PTuple l \/ x = PSet l) ->
+  array_items json_loads x = ROk l.
+Proof. intros [->|[->| ->]]; reflexivity. Qed.
+
+Lemma array_no_element x l :
+  (x = PList l \/ x = PTuple l \/ x = PSet l) -> parse' T_ARRAY nokw x = ROk (PList l).
+Proof. intros [->|[->| ->]]; reflexivity. Qed.
+
+Lemma array_elementwise et x l (k : kwargs) :
+  kw_element k = Some et -> (x = PList l \/ x = PTuple l \/ x = PSet l) ->
+  parse' T_ARRAY k x = rbind (mapM (fun v => parse' et nokw v) l) (fun l' => ROk (PList l')).
+Proof.
+  intros Hk Hx. unfold parse.
+  assert (mapM (parse_elem' et) l = mapM (fun v => parse' et nokw v) l) as Hm.
+  { clear. induction l as [|v l IH]; [reflexivity|]. cbn [mapM]. now rewrite parse_elem_eq, IH. }
+  destruct Hx as [->|[->| ->]]; cbv beta iota delta [parser_table array_items is_container rbind py_iter]; rewrite Hk, Hm; reflexivity.
+Qed.
+
+Lemma array_elements_spec et x l l' (k : kwargs) :
+  kw_element k = Some et -> (x = PList l \/ x = PTuple l \/ x = PSet l) ->
+  parse' T_ARRAY k x = ROk l' ->
+  exists r, l' = PList r /\ Forall2 (fun v y => parse' et nokw v = ROk y /\ (v = PNone -> y = PNone)) l r.
+Proof.
+  intros Hk Hx H. rewrite (array_elementwise et x l k Hk Hx) in H.
+  apply rbind_ok in H. destruct H as (r & Hr & H). injection H as <-. exists r. split; [reflexivity|].
+  apply mapM_ok in Hr. clear Hx. induction Hr as [|v y l r Hvy _ IH]; [constructor|]. constructor; [|exact IH].
+  split; [assumption|]. intros ->. rewrite parse_none in Hvy. now injection Hvy as <-.
+Qed.
+
+Lemma array_all_ok et x l r (k : kwargs) :
+  kw_element k = Some et -> (x = PList l \/ x = PTuple l \/ x = PSet l) ->
+  Forall2 (fun v y => parse' et nokw v = ROk y) l r -> parse' T_ARRAY k x = ROk (PList r).
+Proof.
+  intros Hk Hx H. rewrite (array_elementwise et x l k Hk Hx). now rewrite (mapM_all_ok (fun v => parse' et nokw v) _ _ H).
+Qed.
+
+Lemma array_json k (yb : bool) s l :
+  json_loads yb s = ROk (PList l) ->
+  parse' T_ARRAY k (if yb then PBytes s else PStr s) = parse' T_ARRAY k (PList l).
+Proof.
+  intros H. unfold parse. destruct yb; cbv beta iota delta [parser_table array_items is_container]; rewrite H; reflexivity.
+Qed.
+
+Lemma array_idempotent et l (k : kwargs) :
+  kw_element k = Some et -> Forall (fun v => parse' et nokw v = ROk v) l ->
+  parse' T_ARRAY k (PList l) = ROk (PList l).
+Proof.
+  intros Hk H. apply (array_all_ok et (PList l) l l k Hk); [now left|].
+  induction H; constructor; assumption.
+Qed.
+
+(* ---------- DOUBLE ---------- *)
+Lemma double_native k f : parse' T_DOUBLE k (PFloat f) = ROk (PFloat f).
+Proof. reflexivity. Qed.
+
+Hypothesis repr_inverse : forall f, float_canonical f = true -> float_of_text (repr_float f) = ROk f.
+Hypothesis float_skips_blanks : forall ws1 s ws2, forallb blank ws1 = true -> forallb blank ws2 = true ->
+  float_of_text (ws1 ++ s ++ ws2) = float_of_text s.
+Hypothesis float_bytes_as_text : forall b, forallb (fun c => c <? 128)%N b = true -> float_of_bytes b = float_of_text b.
+Hypothesis repr_is_ascii : forall f, forallb (fun c => c <? 128)%N (repr_float f) = true.
+
+Lemma double_roundtrip k f ws1 ws2 :
+  float_canonical f = true -> forallb blank ws1 = true -> forallb blank ws2 = true ->
+  parse' T_DOUBLE k (PStr (ws1 ++ repr_float f ++ ws2)) = ROk (PFloat f) /\
+  parse' T_DOUBLE k (PBytes (utf8_encode (ws1 ++ repr_float f ++ ws2))) = ROk (PFloat f).
+Proof.
+  intros Hc H1 H2.
+  assert (forallb (fun c => c <? 128)%N (ws1 ++ repr_float f ++ ws2) = true) as Hascii.
+  { rewrite !forallb_app, (blank_ascii _ H1), (blank_ascii _ H2), repr_is_ascii. reflexivity. }
+  rewrite (utf8_encode_ascii _ Hascii).
+  unfold parse. cbv beta iota delta [parser_table parse_scalar parse_double].
+  rewrite (float_bytes_as_text _ Hascii), float_skips_blanks, repr_inverse by assumption. split; reflexivity.
+Qed.
+
+(* ---------- DATE / TIMESTAMP ---------- *)
+Lemma date_native k y m d : parse' T_DATE k (PDate y m d) = ROk (PDate y m d).
+Proof.
+  unfold parse. cbv beta iota delta [parser_table parse_scalar parse_date to_c08]. unfold cast_date. rewrite native_date. reflexivity.
+Qed.
+
+Lemma timestamp_native k y m d h mi s us : parse' T_TIMESTAMP k (PDatetime y m d h mi s us) = ROk (PDatetime y m d h mi s 0).
+Proof.
+  unfold parse. cbv beta iota delta [parser_table parse_scalar parse_timestamp to_c08]. unfold cast_timestamp. rewrite native_datetime. reflexivity.
+Qed.
+
+Lemma date_roundtrip k y m d : valid_date y m d = true ->
+  py_str' (PDate y m d) = ROk (render_date y m d) /\
+  parse' T_DATE k (PStr (render_date y m d)) = ROk (PDate y m d) /\
+  parse' T_DATE k (PBytes (utf8_encode (render_date y m d))) = ROk (PDate y m d).
+Proof.
+  intros Hv. split; [reflexivity|].
+  pose proof (iso_dateonly y m d SNone Hv eq_refl eq_refl) as H. cbv zeta in H.
+  unfold render_dateonly in H. cbn [render_suffix] in H. rewrite app_nil_r in H. destruct H as [Ht Hb].
+  unfold parse. cbv beta iota delta [parser_table parse_scalar parse_date to_c08]. unfold cast_date. rewrite Ht, Hb. split; reflexivity.
+Qed.
+
+
+Lemma d6_digits us : 0 <= us < 1000000 -> forallb ascii_digit (d6 us) = true.
+Proof.
+  intros H. unfold d6. cbn [forallb]. rewrite !dig_digit by lia. reflexivity.
+Qed.
+
+Lemma render_datetime_seconds y m d h mi s us :
+  render_datetime y m d h mi s us = render_seconds y m d h mi s cSp (frac_of us) SNone.
+Proof.
+  unfold render_datetime, render_seconds, frac_of. destruct (us =? 0).
+  - cbn [render_frac render_suffix app]. now rewrite app_nil_r.
+  - unfold d6. cbn [render_frac render_suffix]. now rewrite app_nil_r.
+Qed.
+
+Lemma timestamp_roundtrip k y m d h mi s us :
+  valid_date y m d = true -> valid_time h mi s = true -> 0 <= us < 1000000 ->
+  py_str' (PDatetime y m d h mi s us) = ROk (render_datetime y m d h mi s us) /\
+  parse' T_TIMESTAMP k (PStr (render_datetime y m d h mi s us)) = ROk (PDatetime y m d h mi s 0) /\
+  parse' T_TIMESTAMP k (PBytes (utf8_encode (render_datetime y m d h mi s us))) = ROk (PDatetime y m d h mi s 0) /\
+  (* isoformat(): the same with a T *)
+  parse' T_TIMESTAMP k (PStr (render_seconds y m d h mi s cT (frac_of us) SNone)) = ROk (PDatetime y m d h mi s 0).
+Proof.
+  intros Hd Ht Hus. split; [reflexivity|].
+  assert (forallb ascii_digit (frac_of us) = true /\ (length (frac_of us) <= 6)%nat) as [Hf Hl].
+  { unfold frac_of. destruct (us =? 0); [split; [reflexivity|cbn; lia]|]. split; [now apply d6_digits|cbn; lia]. }
+  pose proof (iso_seconds y m d h mi s cSp (frac_of us) SNone Hd Ht eq_refl Hf Hl eq_refl) as H1.
+  pose proof (iso_seconds y m d h mi s cT (frac_of us) SNone Hd Ht eq_refl Hf Hl eq_refl) as H2.
+  cbv zeta in H1, H2. rewrite <- render_datetime_seconds in H1. destruct H1 as [Ha Hb]. destruct H2 as [Hc _].
+  unfold parse. cbv beta iota delta [parser_table parse_scalar parse_timestamp to_c08]. unfold cast_timestamp.
+  rewrite Ha, Hb, Hc. repeat split; reflexivity.
+Qed.
+
+(* ---------- DECIMAL ---------- *)
+
+Lemma decimal_exact p s neg c e ws1 ws2 :
+  1 <= p <= 38 -> 0 <= s <= safe_scale_cap -> - s <= e <= 1000 -> 0 <= c ->
+  (c = 0 \/ ndig c + (e + s) <= p) ->
+  forallb blank ws1 = true -> forallb blank ws2 = true ->
+  let d := DFin neg c e in
+  let r := ROk (PDecimal (DFin neg (c * 10 ^ (e + s)) (- s))) in
+  py_str' (PDecimal d) = ROk (dec_str d) /\
+  parse' T_DECIMAL (dec_kw p s) (PDecimal d) = r /\
+  parse' T_DECIMAL (dec_kw p s) (PStr (ws1 ++ dec_str d ++ ws2)) = r /\
+  parse' T_DECIMAL (dec_kw p s) (PBytes (utf8_encode (ws1 ++ dec_str d ++ ws2))) = r.
+Proof.
+  intros Hp Hs He Hc Hfit H1 H2 d r. split; [reflexivity|].
+  pose proof (dec_str_dchar neg c e Hc) as Hd. fold d in Hd.
+  pose proof (factory_exact p s neg c e Hp Hs He Hc Hfit) as F. fold d in F.
+  assert (forallb (fun c => c <? 128)%N (ws1 ++ dec_str d ++ ws2) = true) as Hascii.
+  { rewrite !forallb_app, (blank_ascii _ H1), (blank_ascii _ H2), (dchar_ascii _ Hd). reflexivity. }
+  rewrite (utf8_encode_ascii _ Hascii).
+  unfold parse. cbv beta iota delta [parser_table parse_scalar parse_decimal dec_kw kw_scale kw_precision py_str rbind].
+  unfold utf8_decode_strict. rewrite (utf8_decode_ascii _ Hascii). cbn [rbind].
+  rewrite (py_strip_dchar _ Hd).
+  rewrite (py_strip_padded ws1 ws2 (dec_str d) (space_ascii_blank _ H1) (space_ascii_blank _ H2) Hd).
+  rewrite F. cbn [rbind]. repeat split; reflexivity.
+Qed.
+
+(* numerically exact for every decimal with at most p digits, whether or not it fits *)
+Lemma decimal_numeric p s neg c e ws1 ws2 :
+  1 <= p <= 38 -> 0 <= s <= safe_scale_cap -> - s <= e <= 1000 -> 0 <= c -> (c = 0 \/ ndig c <= p) ->
+  forallb blank ws1 = true -> forallb blank ws2 = true ->
+  let d := DFin neg c e in
+  exists c2 e2, let r := ROk (PDecimal (DFin neg c2 e2)) in
+    - s <= e2 /\ c2 * 10 ^ (e2 + s) = c * 10 ^ (e + s) /\
+    parse' T_DECIMAL (dec_kw p s) (PDecimal d) = r /\
+    parse' T_DECIMAL (dec_kw p s) (PStr (ws1 ++ dec_str d ++ ws2)) = r /\
+    parse' T_DECIMAL (dec_kw p s) (PBytes (utf8_encode (ws1 ++ dec_str d ++ ws2))) = r.
+Proof.
+  intros Hp Hs He Hc Hfit H1 H2 d.
+  destruct (factory_numeric p s neg c e Hp Hs He Hc Hfit) as (c2 & e2 & F & He2 & Hv). fold d in F.
+  exists c2, e2. cbv zeta. split; [assumption|]. split; [assumption|].
+  pose proof (dec_str_dchar neg c e Hc) as Hd. fold d in Hd.
+  assert (forallb (fun c => c <? 128)%N (ws1 ++ dec_str d ++ ws2) = true) as Hascii.
+  { rewrite !forallb_app, (blank_ascii _ H1), (blank_ascii _ H2), (dchar_ascii _ Hd). reflexivity. }
+  rewrite (utf8_encode_ascii _ Hascii).
+  unfold parse. cbv beta iota delta [parser_table parse_scalar parse_decimal dec_kw kw_scale kw_precision py_str rbind].
+  unfold utf8_decode_strict. rewrite (utf8_decode_ascii _ Hascii). cbn [rbind].
+  rewrite (py_strip_dchar _ Hd).
+  rewrite (py_strip_padded ws1 ws2 (dec_str d) (space_ascii_blank _ H1) (space_ascii_blank _ H2) Hd).
+  rewrite F. cbn [rbind]. repeat split; reflexivity.
+Qed.
+
+(* without keyword arguments parse_decimal uses its own precision and scale *)
+Lemma decimal_defaults x : parse' T_DECIMAL nokw x = parse' T_DECIMAL (dec_kw default_precision default_scale) x.
+Proof. destruct x; reflexivity. Qed.
+
+(* ---------- idempotence on values that already have the type ---------- *)
+Lemma idempotent_scalars k :
+  (forall b, parse' T_BOOLEAN k (PBool b) = ROk (PBool b)) /\
+  (forall z, parse' T_INTEGER k (PInt z) = ROk (PInt z)) /\
+  (forall f, parse' T_DOUBLE k (PFloat f) = ROk (PFloat f)) /\
+  (forall t, kw_length k = None \/ (exists n, kw_length k = Some n /\ zlen t <= n) -> parse' T_VARCHAR k (PStr t) = ROk (PStr t)) /\
+  (forall b, kw_length k = None \/ (exists n, kw_length k = Some n /\ zlen b <= n) -> parse' T_BLOB k (PBytes b) = ROk (PBytes b)) /\
+  (forall y m d, parse' T_DATE k (PDate y m d) = ROk (PDate y m d)) /\
+  (forall y m d h mi s us, parse' T_TIMESTAMP k (PDatetime y m d h mi s us) = ROk (PDatetime y m d h mi s 0)) /\
+  (forall l, kw_element k = None -> parse' T_ARRAY k (PList l) = ROk (PList l)).
+Proof.
+  assert (forall {A} (l : list A) n, zlen l <= n -> py_prefix (Some n) l = l) as Hpre.
+  { intros A l n Hl. unfold py_prefix. destruct (n =? 0); [reflexivity|].
+    pose proof (zlen_nonneg l). replace (n <? 0) with false by lia. apply firstn_all2. unfold zlen in Hl. lia. }
+  split; [intros b; exact (proj1 (boolean_render k b))|].
+  split; [reflexivity|]. split; [reflexivity|].
+  split.
+  { intros t Hl. unfold parse. cbv beta iota delta [parser_table parse_scalar parse_varchar py_str rbind].
+    destruct Hl as [->|(n & -> & Hl)]; [reflexivity|]. now rewrite Hpre. }
+  split.
+  { intros b Hl. unfold parse. cbv beta iota delta [parser_table parse_scalar parse_bytes is_container rbind].
+    destruct Hl as [->|(n & -> & Hl)]; [reflexivity|]. now rewrite Hpre. }
+  split; [intros; apply date_native|]. split; [intros; apply timestamp_native|].
+  intros l Hk. unfold parse. cbv beta iota delta [parser_table array_items is_container rbind py_iter]. now rewrite Hk.
+Qed.
+
+(* ---------- class preservation ---------- *)
+Lemma class_boolean x r : parse_boolean repr_float str_container x = ROk r -> class_of r = K_bool.
+Proof.
+  unfold parse_boolean. destruct x; intros H; try (apply rbind_ok in H; destruct H as (s & _ & H)); injection H as <-; reflexivity.
+Qed.
+
+Lemma class_scalar pn k x r :
+  parse_scalar' pn k x = ROk r ->
+  match pn with
+  | P_parse_boolean => class_of r = K_bool
+  | P_parse_bytes => class_of r = K_bytes
+  | P_parse_date => class_of r = K_date
+  | P_parse_timestamp => class_of r = K_datetime
+  | P_parse_decimal => class_of r = K_Decimal
+  | P_parse_double => class_of r = K_float
+  | P_parse_integer => class_of r = K_int
+  | P_parse_varchar => class_of r = K_str
+  | P_parse_null => class_of r = K_NoneType
+  | P_parse_array => class_of r = K_list
+  | P_parse_time | P_parse_interval => False
+  end.
+Proof.
+  destruct pn; cbn [parse_scalar]; intros H.
+  - now apply class_boolean in H.
+  - unfold parse_bytes in H. apply rbind_ok in H. destruct H as (v & _ & H). now injection H as <-.
+  - unfold parse_date in H. apply rbind_ok in H. destruct H as ([[y m] d] & _ & H). now injection H as <-.
+  - unfold parse_timestamp in H. apply rbind_ok in H. destruct H as ([[[[[[y m] d] h] mi] s] us] & _ & H). now injection H as <-.
+  - discriminate.
+  - discriminate.
+  - unfold parse_decimal in H. apply rbind_ok in H. destruct H as (t & _ & H).
+    apply rbind_ok in H. destruct H as (d & _ & H). now injection H as <-.
+  - unfold parse_double in H. apply rbind_ok in H. destruct H as (f & _ & H). now injection H as <-.
+  - unfold parse_integer in H. apply rbind_ok in H. destruct H as (z & _ & H). now injection H as <-.
+  - apply rbind_ok in H. destruct H as (l & _ & H). now injection H as <-.
+  - unfold parse_varchar in H. apply rbind_ok in H. destruct H as (v & _ & H). now injection H as <-.
+  - now injection H as <-.
+Qed.
+
+Lemma class_preserved t k x r :
+  In t value_types -> x <> PNone -> parse' t k x = ROk r -> Some (class_of r) = python_class t.
+Proof.
+  intros Ht Hx H. unfold parse in H.
+  assert (match parser_table t with
+          | None => RErr XKey
+          | Some P_parse_array =>
+              rbind (array_items json_loads x) (fun l =>
+                match kw_element k with
+                | None => ROk (PList l)
+                | Some et => rbind (mapM (parse_elem' et) l) (fun l' => ROk (PList l'))
+                end)
+          | Some pn => parse_scalar' pn k x
+          end = ROk r) as H'.
+  { destruct x; try congruence; exact H. }
+  clear H. unfold value_types in Ht. cbn [In] in Ht.
+  destruct Ht as [<-|[<-|[<-|[<-|[<-|[<-|[<-|[<-|[<-|[]]]]]]]]]]; cbn [parser_table python_class] in *.
+  1-8: apply class_scalar in H'; now rewrite H'.
+  apply rbind_ok in H'. destruct H' as (l & _ & H'). destruct (kw_element k).
+  - apply rbind_ok in H'. destruct H' as (l' & _ & H'). now injection H' as <-.
+  - now injection H' as <-.
+Qed.
+
+Lemma class_elements et k x r :
+  In et value_types -> kw_element k = Some et -> parse' T_ARRAY k x = ROk r ->
+  r = PNone \/ exists l, r = PList l /\ Forall (fun y => y = PNone \/ Some (class_of y) = python_class et) l.
+Proof.
+  intros Het Hk H.
+  assert (x = PNone \/ x <> PNone) as [->|Hx] by (destruct x; (now left) || (right; discriminate)).
+  { left. now injection H as <-. }
+  right.
+  assert (rbind (array_items json_loads x) (fun items =>
+            rbind (mapM (parse_elem' et) items) (fun l' => ROk (PList l'))) = ROk r) as H'.
+  { unfold parse in H. cbv beta iota delta [parser_table] in H. rewrite Hk in H. destruct x; try congruence; exact H. }
+  clear H. apply rbind_ok in H'. destruct H' as (items & _ & H'). apply rbind_ok in H'. destruct H' as (out & Hm & H').
+  injection H' as <-. exists out. split; [reflexivity|]. apply mapM_ok in Hm.
+  induction Hm as [|v y l0 l1 Hvy _ IH]; [constructor|]. constructor; [|exact IH].
+  rewrite parse_elem_eq in Hvy.
+  assert (v = PNone \/ v <> PNone) as [->|Hv] by (destruct v; (now left) || (right; discriminate)).
+  - left. rewrite parse_none in Hvy. now injection Hvy as <-.
+  - right. eapply class_preserved; eauto.
+Qed.
+
+(* ---------- FlatColumn(default=...) ---------- *)
+Lemma column_truthy t x : truthy x = true ->
+  column' t x = match parse' t nokw x with ROk r => ROk r | RErr _ => RErr XValue end.
+Proof. intros H. unfold column_default. now rewrite H. Qed.
+
+Lemma column_falsy t x : truthy x = false -> column' t x = ROk x.
+Proof. intros H. unfold column_default. now rewrite H. Qed.
+
+Lemma boolean_total k s :
+  parse' T_BOOLEAN k (PStr s) = ROk (PBool (in_boolean_strings false (py_upper s))) /\
+  parse' T_BOOLEAN k (PBytes s) = ROk (PBool (in_boolean_strings true (bytes_upper s))).
+Proof. split; reflexivity. Qed.
+
+Lemma text_unbounded t b :
+  parse' T_VARCHAR nokw (PStr t) = ROk (PStr t) /\
+  (forallb scalar t = true -> parse' T_VARCHAR nokw (PBytes (utf8_encode t)) = ROk (PStr t)) /\
+  parse' T_BLOB nokw (PBytes b) = ROk (PBytes b) /\
+  (forallb scalar t = true -> parse' T_BLOB nokw (PStr t) = ROk (PBytes (utf8_encode t))).
+Proof.
+  split; [exact (proj1 (varchar_unbounded t))|]. split; [exact (proj2 (varchar_unbounded t))|].
+  split; [exact (proj1 (blob_unbounded b t))|exact (proj2 (blob_unbounded b t))].
+Qed.
+
+Lemma column_default_spec t x :
+  (truthy x = true -> column' t x = match parse' t nokw x with ROk r => ROk r | RErr _ => RErr XValue end) /\
+  (truthy x = false -> column' t x = ROk x).
+Proof. split; [apply column_truthy|apply column_falsy]. Qed.
+
 End Oracles.
+
+(* ---------- witnesses ---------- *)
+(* DECIMAL(5,3) of 12345: five significant digits, no fractional digit - the value comes back,
+   but at exponent 0, not -3 (quantize would need eight digits) *)
+Lemma decimal_exponent_witness ft fb rp jl jd sc :
+  parse ft fb rp jl jd sc T_DECIMAL (dec_kw 5 3) (PStr (dec_str (DFin false 12345 0))) = ROk (PDecimal (DFin false 12345 0)).
+Proof. vm_compute. reflexivity. Qed.
+
+(* F-C07-4: a falsy default is not cast *)
+Lemma column_falsy_witness ft fb rp jl jd sc :
+  column_default ft fb rp jl jd sc T_VARCHAR (PBytes []) = ROk (PBytes []) /\
+  parse ft fb rp jl jd sc T_VARCHAR nokw (PBytes []) = ROk (PStr []).
+Proof. split; vm_compute; reflexivity. Qed.
+
+(* F-C07-3: the default of a VARCHAR[3] column is cast without the length *)
+Lemma column_length_witness ft fb rp jl jd sc :
+  let t := [97; 98; 99; 100; 101; 102]%N in
+  column_default ft fb rp jl jd sc T_VARCHAR (PStr t) = ROk (PStr t) /\
+  parse ft fb rp jl jd sc T_VARCHAR (mkkw (Some 3) None None None) (PStr t) = ROk (PStr [97; 98; 99]%N).
+Proof. split; vm_compute; reflexivity. Qed.
+
+(* the hypotheses of double_roundtrip are satisfiable: a toy float()/repr() pair (the bits
+   written in decimal; float() reads the digits and ignores everything else) *)
+Definition toy_float (s : list N) : res N := ROk (Z.to_N (digits_value (filter ascii_digit s))).
+Definition toy_repr (f : N) : list N := render_nat (Z.of_N f).
+
+Lemma filter_digits ds : forallb ascii_digit ds = true -> filter ascii_digit ds = ds.
+Proof.
+  induction ds as [|c ds IH]; intros H; [reflexivity|]. cbn [forallb] in H. apply andb_true_iff in H.
+  cbn [filter]. rewrite (proj1 H), IH by apply H. reflexivity.
+Qed.
+
+Lemma filter_blanks ws : forallb blank ws = true -> filter ascii_digit ws = [].
+Proof.
+  induction ws as [|c ws IH]; intros H; [reflexivity|]. cbn [forallb] in H. apply andb_true_iff in H.
+  cbn [filter]. replace (ascii_digit c) with false by (destruct H as [H _]; unfold blank in H; unfold ascii_digit; lia).
+  now apply IH.
+Qed.
+
+Lemma double_hypotheses_satisfiable :
+  (forall f, float_canonical f = true -> toy_float (toy_repr f) = ROk f) /\
+  (forall ws1 s ws2, forallb blank ws1 = true -> forallb blank ws2 = true -> toy_float (ws1 ++ s ++ ws2) = toy_float s) /\
+  (forall b, forallb (fun c => c <? 128)%N b = true -> toy_float b = toy_float b) /\
+  (forall f, forallb (fun c => c <? 128)%N (toy_repr f) = true).
+Proof.
+  split.
+  { intros f _. unfold toy_float, toy_repr. rewrite filter_digits by (apply render_nat_digits; lia).
+    rewrite render_nat_value by lia. now rewrite N2Z.id. }
+  split.
+  { intros ws1 s ws2 H1 H2. unfold toy_float. rewrite !filter_app, (filter_blanks _ H1), (filter_blanks _ H2).
+    now rewrite app_nil_r. }
+  split; [reflexivity|].
+  intros f. apply digit_ascii. apply render_nat_digits. lia.
+Qed.
+
+Lemma decimal_exponent_refuted ft fb rp jl jd sc :
+  exists p s c e, 1 <= p <= 38 /\ 0 <= s <= safe_scale_cap /\ - s <= e <= 0 /\ ndig c <= p /\
+    exists c2 e2, parse ft fb rp jl jd sc T_DECIMAL (dec_kw p s) (PStr (dec_str (DFin false c e))) = ROk (PDecimal (DFin false c2 e2))
+                  /\ e2 <> - s.
+Proof.
+  exists 5, 3, 12345, 0.
+  split; [vm_compute; split; discriminate|]. split; [vm_compute; split; discriminate|].
+  split; [vm_compute; split; discriminate|]. split; [vm_compute; discriminate|].
+  exists 12345, 0. split; [exact (decimal_exponent_witness ft fb rp jl jd sc)|discriminate].
+Qed.
+
+Lemma column_default_falsy_refuted ft fb rp jl jd sc :
+  exists x, column_default ft fb rp jl jd sc T_VARCHAR x = ROk x /\ Some (class_of x) <> python_class T_VARCHAR /\
+            parse ft fb rp jl jd sc T_VARCHAR nokw x = ROk (PStr []).
+Proof.
+  exists (PBytes []).
+  split; [exact (proj1 (column_falsy_witness ft fb rp jl jd sc))|].
+  split; [discriminate|exact (proj2 (column_falsy_witness ft fb rp jl jd sc))].
+Qed.
+
+Lemma column_default_length_refuted ft fb rp jl jd sc :
+  exists t, column_default ft fb rp jl jd sc T_VARCHAR (PStr t) = ROk (PStr t) /\
+            parse ft fb rp jl jd sc T_VARCHAR (mkkw (Some 3) None None None) (PStr t) <> ROk (PStr t).
+Proof.
+  exists [97; 98; 99; 100; 101; 102]%N.
+  destruct (column_length_witness ft fb rp jl jd sc) as [H1 H2]. split; [exact H1|]. rewrite H2. discriminate.
+Qed.
